@@ -1,5 +1,6 @@
 """C04 / C05 / C06 share one driver run shape and one trace specification (Trace_Ledger); this module
 is C04 - no coins from nowhere.  The other two import `run`."""
+import collections
 import json
 
 import chainlib
@@ -75,7 +76,8 @@ def run(ctx, pid):
     cov = {"states": r.distinct, "transitions": r.generated,
            "traces_validated_against_impl": stats.get("histories", 0),
            "blocks": len(blocks), "txs_included": included, "single_tx_blocks": single, "epoch_finishing_blocks": epochs,
-           "replay_attempts_crafted": len(crafted), "relationship_scenarios": rel_stats,
+           "replay_attempts_crafted": len(crafted), "crafted_by_kind": dict(collections.Counter(x.get("what") for x in crafted)),
+           "relationship_scenarios": rel_stats,
            "tx_types_included": sorted({t["type"] for x in blocks for t in (x.get("txs") or [])}),
            "samples": [{k: blocks[len(blocks) // 3].get(k) for k in ("h", "kind", "flags", "proposer", "txs", "epochLen")}],
            "rule": "seeded random histories on real chains (all plain tx types, targets in every relationship to the signer, amounts on the "
